@@ -12,7 +12,7 @@ From Coq Require Import List ZArith NArith Bool.
 From BBS Require Import Common.Sx Buffer.Source Buffer.Validate Buffer.Convert Buffer.ErrHandler
   Buffer.StreamProofs Buffer.ValidateProofs Buffer.ErrHandlerProofs Buffer.ClosedOnceProofs
   Buffer.ErrHandlerStackProofs Buffer.StackRuleProofs Buffer.ValidateReaderProofs Buffer.ConvertProofs
-  Buffer.EHFullCarry Buffer.EHFullReader Buffer.EHFullMethods Buffer.EHFullStack Buffer.EHFullPrefix Buffer.EHFullExact Buffer.EHFullStackExact Buffer.EHFullStacking Buffer.EHFullMon Run.R09 Run.R16 Run.R16Proofs.
+  Buffer.EHFullCarry Buffer.EHFullReader Buffer.EHFullMethods Buffer.EHFullStack Buffer.EHFullPrefix Buffer.EHFullExact Buffer.EHFullStackExact Buffer.EHFullStacking Buffer.EHFullCompleted Buffer.EHFullMon Run.R09 Run.R16 Run.R16Proofs.
 Import ListNotations.
 Open Scope N_scope.
 
@@ -230,6 +230,28 @@ Theorem whole_stack_reader_stream_is_the_specification : forall fuel b0 anss b w
   (let '(p0, t0) := piece_of b0 0 in stitch_stack p0 t0 anss) = (out, e, oews (sr_w r')).
 Proof. exact whole_stack_reader_stream. Qed.
 Print Assumptions whole_stack_reader_stream_is_the_specification.
+
+(** At the level of the model's outcome: if a streaming method (IntoWriter,
+    ToChunkReader at any offset / chunk size, ToReader with any read sizes) on a
+    stack of at least one handler COMPLETES, then the stitched stream [st] of
+    the specification ends with io.EOF, the consumer holds exactly the expected
+    slice of [st], every handler's OnError arguments ([oell] of its log) are
+    exactly the offers the specification lists, and [st] has the digest's size
+    and hash (for a byte slice that was never streamed: provided the byte
+    slices of the case hold valid content — they are trusted by the code).
+    This is what monitor clauses 3 and 4 demand of a completed run.
+    Hypotheses: well-formed buffers, no fuel exhaustion offered to a handler. *)
+Theorem completed_streaming_run_is_the_specification : forall H cfg fuel b0 anss m,
+  streaming m -> anss <> [] ->
+  completed m (y_err (run_stack H cfg fuel b0 anss m)) = true ->
+  wf_case b0 anss -> no_fuel_offered (y_logs (run_stack H cfg fuel b0 anss m)) ->
+  exists st,
+    (let '(p0, t0) := piece_of b0 0 in stitch_stack p0 t0 anss)
+      = (st, EEof, map oell (y_logs (run_stack H cfg fuel b0 anss m))) /\
+    y_data (run_stack H cfg fuel b0 anss m) = expected_slice m st /\
+    (bytes_trusted H cfg b0 anss -> valid_bytes H cfg st).
+Proof. exact run_stack_completed_streaming. Qed.
+Print Assumptions completed_streaming_run_is_the_specification.
 
 (** * Every consumption method.  If the buffer handed to WithErrorHandler and
     every replacement buffer the handler supplies carry the object [C], then a
